@@ -22,6 +22,7 @@ func genMore() {
 	genNarrowFacts()
 	genBlockFacts()
 	genClassFacts()
+	genStrategyFacts()
 }
 
 type methInfo struct {
